@@ -256,7 +256,9 @@ retry:
 
   if (item_count < bucket_item_count) {
     traits::template store_item<AcquireAccessor>(
-      bucket.key[item_count], bucket.value[item_count], h, std::move(key), factory(), std::memory_order_relaxed, acc);
+      // release: try_get_value might read this slot based on an old bucket state; if it sees the new value
+      // (a pointer to a node for non-trivial types) it has to see the initialization of that node as well
+      bucket.key[item_count], bucket.value[item_count], h, std::move(key), factory(), std::memory_order_release, acc);
     callback(std::move(acc), bucket.value[item_count]);
     // release the bucket lock and increment the item count
     // (3) - this release-store synchronizes-with the acquire-CAS (7, 30, 34, 37) and the acquire-load (23)
@@ -282,7 +284,7 @@ retry:
   }
   try {
     traits::template store_item<AcquireAccessor>(
-      extension->key, extension->value, h, std::move(key), factory(), std::memory_order_relaxed, acc);
+      extension->key, extension->value, h, std::move(key), factory(), std::memory_order_release, acc);
   } catch (...) {
     free_extension_item(extension);
     throw;
